@@ -45,19 +45,31 @@ Arguments Free {T}. Arguments Fixed {T}.
 Section Solve.
 Context {T : Type}.
 Variable is_zero : T -> bool.
+(* the arithmetic of the exit test (f32 in Rust) *)
+Variables (t_abs : T -> T) (t_mul t_add : T -> T -> T) (t_leb : T -> T -> bool) (t_eps t_zero : T).
 (* one iteration of the numerical core: (current free values, residuals) -> next values or stop *)
 Variable lm_step : list T -> list T -> option (list T).
-(* residuals of all equations at (free values in grad_index order, fixed values) *)
+(* residuals of all equations, and the rows of the Jacobian, at (free values in grad_index order, fixed values) *)
 Variable residuals : list T -> list T.
+Variable jacobian : list T -> list (list T).
 
 Definition free_vars (vars : list (nat * parameter T)) : list (nat * T) :=
   flat_map (fun p => match snd p with Free v => [(fst p, v)] | Fixed _ => [] end) vars.
+
+(* the exit test at the top of the loop (after the repair): every residual is exactly zero, or at most
+   EPSILON times the sum of the magnitudes of its first-order terms  sum_j |J_ij * x_j|  *)
+Definition term_sum (row cur : list T) : T :=
+  fold_left t_add (map (fun p => t_abs (t_mul (fst p) (snd p))) (combine row cur)) t_zero.
+Definition done_row (r : T) (row cur : list T) : bool :=
+  is_zero r || t_leb (t_abs r) (t_mul t_eps (term_sum row cur)).
+Definition done_all (res : list T) (rows : list (list T)) (cur : list T) : bool :=
+  forallb (fun p => done_row (fst p) (snd p) cur) (combine res rows).
 
 Fixpoint iterate (fuel : nat) (cur : list T) : list T :=
   match fuel with
   | O => cur
   | S f =>
-      if forallb is_zero (residuals cur) then cur          (* early exit: all residuals == 0.0 *)
+      if done_all (residuals cur) (jacobian cur) cur then cur          (* early exit *)
       else match lm_step cur (residuals cur) with
            | Some next => iterate f next
            | None => cur
@@ -77,7 +89,7 @@ Hypothesis step_len : forall cur r next, lm_step cur r = Some next -> length nex
 Lemma iterate_length fuel : forall cur, length (iterate fuel cur) = length cur.
 Proof.
   induction fuel as [|f IH]; intros cur; simpl; [reflexivity|].
-  destruct (forallb is_zero (residuals cur)); [reflexivity|].
+  destruct (done_all (residuals cur) (jacobian cur) cur); [reflexivity|].
   destruct (lm_step cur (residuals cur)) as [next|] eqn:E; [|reflexivity].
   rewrite IH. now apply step_len in E.
 Qed.
@@ -104,15 +116,30 @@ Proof.
   - intros H. exists (k, Free v). split; [exact H | now left].
 Qed.
 
+(* exactly satisfied equations pass the exit test *)
+Lemma zero_residuals_done res rows cur : forallb is_zero res = true -> done_all res rows cur = true.
+Proof.
+  unfold done_all. revert rows. induction res as [|r res IH]; intros rows H; [reflexivity|].
+  destruct rows as [|row rows]; [reflexivity|]. simpl in *. apply andb_prop in H. destruct H as [Hr Hres].
+  unfold done_row. rewrite Hr. simpl. apply IH. exact Hres.
+Qed.
+
+(* whenever the exit test holds at the start, the starting point comes back unchanged *)
+Theorem solve_done_is_fixpoint fuel vars :
+  0 < fuel ->
+  (let cur := map snd (free_vars vars) in done_all (residuals cur) (jacobian cur) cur = true) ->
+  solve fuel vars = free_vars vars.
+Proof.
+  intros Hf Hz. unfold solve. destruct (free_vars vars) as [|p l] eqn:E; [reflexivity|].
+  rewrite <- E in *. destruct fuel as [|f]; [lia|]. simpl in *. rewrite Hz.
+  clear. induction (free_vars vars) as [|[k v] r IH]; simpl; [reflexivity|]. now rewrite IH.
+Qed.
+
 (* every equation already exactly satisfied: the starting point comes back unchanged *)
 Theorem solve_satisfied_is_fixpoint fuel vars :
   0 < fuel ->
   forallb is_zero (residuals (map snd (free_vars vars))) = true ->
   solve fuel vars = free_vars vars.
-Proof.
-  intros Hf Hz. unfold solve. destruct (free_vars vars) as [|p l] eqn:E; [reflexivity|].
-  rewrite <- E in *. destruct fuel as [|f]; [lia|]. simpl. rewrite Hz.
-  clear. induction (free_vars vars) as [|[k v] r IH]; simpl; [reflexivity|]. now rewrite IH.
-Qed.
+Proof. intros Hf Hz. apply solve_done_is_fixpoint; [exact Hf|]. cbv zeta. apply zero_residuals_done. exact Hz. Qed.
 
 End Solve.
